@@ -30,3 +30,15 @@ class ValueBool(Value):
     def __ne__(self, rhs):
         return ValueBool(self.v != rhs.v)
     
+
+    def __and__(self, rhs):
+        return ValueBool(bool(self.v) and bool(rhs))
+    
+    def __or__(self, rhs):
+        return ValueBool(bool(self.v) or bool(rhs))
+    
+    def __xor__(self, rhs):
+        return ValueBool(bool(self.v) != bool(rhs))
+    
+    def __invert__(self):
+        return ValueBool(not bool(self.v))
